@@ -236,7 +236,7 @@ Proof. destruct r; cbn [option_map]; constructor. Qed.
 Lemma delete_by_name_np v name : no_panic (delete_by_name_t v name).
 Proof. destruct v; cbn; exact I. Qed.
 Lemma delete_by_index_np v i : no_panic (delete_by_index_t v i).
-Proof. destruct v; cbn [delete_by_index_t no_panic]; try exact I. destruct (_ && _)%bool; exact I. Qed.
+Proof. destruct v; cbn [delete_by_index_t no_panic]; try exact I. destruct (DBI_T_KEEP _ _); exact I. Qed.
 Lemma object_insert_np v k x upd : no_panic (object_insert_t v k x upd).
 Proof. destruct v; cbn [object_insert_t no_panic]; try exact I. destruct (assoc_lookup k l); [destruct upd|]; exact I. Qed.
 Lemma object_delete_np v ks : no_panic (object_delete_t v ks).
